@@ -90,7 +90,7 @@ def _drift_note(ctx, rj, what):
 
 
 LENS = [0, 1, 2, 4, 5, 6, 7, 100, 1023, 1024, 1025, 1026, 4095, 16383, 16384, 16385, 65535, 131071, 131072, 131073, 262143, 262144, 262145, 393216]
-CLASSES = ["empty_or_tiny", "all_equal", "random", "text", "skewed", "skewed_match", "periodic", "mixed", "runs", "skewed_unique"]
+CLASSES = ["empty_or_tiny", "all_equal", "random", "text", "skewed", "skewed_match", "periodic", "mixed", "runs", "skewed_unique", "base64"]
 
 
 def random_programs(ctx, n, path):
